@@ -188,3 +188,121 @@ def path_str(e):
     root, steps = access_path(e)
     r = render(root)
     return r + ''.join(('.' + s) if not s.startswith(('@', '!', '[', 'as ')) else ('<' + s + '>') for s in steps)
+
+
+# ----------------------------------------------------------------------
+# LANG template
+from . import lang as _lang
+
+
+def recv_class(e):
+    """class of a receiver/slot expression: the self-rooted field path up to the first cell
+    dereference / take / variant step, e.g. 'self.observer'"""
+    root, steps = access_path(e)
+    pre = []
+    for s in steps:
+        if s in ('@', '!take', '[]') or s.startswith('as '):
+            break
+        pre.append(s)
+    return '.'.join([render(root)] + pre)
+
+
+def down_token(n):
+    m = down_method(n)
+    if m in ('next', 'error', 'complete'):
+        return (m,)
+    return None
+
+
+def slot_classes(g, event_of=down_token):
+    cl = set()
+    for n in g.nodes:
+        if n['kind'] == 'call' and event_of(n) and n['args']:
+            cl.add(recv_class(n['args'][0]))
+    return cl
+
+
+def lang_check(g, spec, event_of=down_token, exact=True, empty_ok=True, classes=None, start=None):
+    """All event words along non-unwind paths from entry to a return must be in L(spec)
+    (prefix-closed check while walking, full membership at return when `exact`).
+    With empty_ok a path that took the None edge of a switch on a downstream slot (or on a value
+    just take()n out of one) may end early: the slot was already empty.
+    Returns None when the rule holds, else (message, witness path)."""
+    r0 = _lang.parse(spec)
+    if classes is None:
+        classes = slot_classes(g, event_of)
+
+    def step(st, n, lab):
+        if st[0] == 'bad':
+            return None
+        r, empty = st[1], st[2]
+        d, v = sw_value(lab)
+        if d is not None and v == 0 and empty_ok:
+            dd = strip(d)
+            if dd[0] == 'discr':
+                root, steps = access_path(dd[1])
+                if '!take' in steps or recv_class(dd[1]) in classes:
+                    empty = True
+        if n['kind'] in ('call', 'enter'):
+            if n['kind'] == 'enter' and n.get('via') in ('std::option::Option::map_or', 'std::option::Option::map', 'std::option::Option::is_none_or'):
+                pass
+            toks = event_of(n)
+            if toks:
+                for t in toks:
+                    r2 = _lang.deriv(r, t)
+                    if r2 == _lang.NULL:
+                        return ('bad', t, _lang.show(r))
+                    r = r2
+        return ('ok', r, empty)
+
+    reached, pred = explore(g, ('ok', r0, False), step, start=start)
+    for key in reached:
+        nid, st = key
+        if st[0] == 'bad':
+            return ("event '%s' is not allowed here (spec '%s', remaining '%s')" % (st[1], spec, st[2]),
+                    witness(g, pred, key, interesting_default))
+    if exact:
+        for nid, st in ret_states(g, reached):
+            if st[0] == 'ok' and not _lang.nullable(st[1]) and not st[2]:
+                return ("a path returns with the word incomplete: still expected '%s' (spec '%s')" % (_lang.show(st[1]), spec),
+                        witness(g, pred, (nid, st), interesting_default))
+    return None
+
+
+# ----------------------------------------------------------------------
+# scheduled tasks
+def sched_task_fn(cx, n):
+    """for a Scheduler::schedule call node: (constructor name, task fn key or None, task args expr)"""
+    if n['kind'] not in ('call', 'enter') or n['name'] != SCHEDULE or len(n['args']) < 2:
+        return None
+    t = strip(n['args'][1])
+    if t[0] == 'call' and t[1].startswith('scheduler::') and t[1].endswith('::new'):
+        ctor = t[1]
+        fnarg = None
+        for a in t[2]:
+            a = strip(a)
+            if a[0] == 'fn':
+                fnarg = a[1]
+        return ctor, fnarg, t[2]
+    return ('?', None, ())
+
+
+def task_tokens(cx, n):
+    """Down tokens a scheduled task will deliver, as one composite event ('sched:next', ...)"""
+    info = sched_task_fn(cx, n)
+    if not info or not info[1] or info[1] not in cx.facts.fns:
+        return None
+    g = cx.graph(info[1])
+    ms = sorted({down_method(x) for x in g.nodes if down_method(x) in ('next', 'error', 'complete')})
+    return tuple(ms)
+
+
+def down_or_sched_token(cx):
+    def ev(n):
+        t = down_token(n)
+        if t:
+            return t
+        if n['kind'] in ('call', 'enter') and n['name'] == SCHEDULE:
+            return task_tokens(cx, n)
+        return None
+    return ev
